@@ -134,6 +134,11 @@ bool c20::run_part0(std::string const& op, Toks& in, Out& impl, Out& ref)
         op_sbind<StdLib>(ref);
         return true;
     }
+    if (op == "tupconv") {
+        op_tupconv<EtlLib>(impl);
+        op_tupconv<StdLib>(ref);
+        return true;
+    }
     if (op == "getbytype") {
         op_getbytype<EtlLib>(impl);
         op_getbytype<StdLib>(ref);
@@ -156,6 +161,10 @@ bool c20::run_part0(std::string const& op, Toks& in, Out& impl, Out& ref)
         op_refwrapops<EtlLib>(x, y, impl);
         op_refwrapops<StdLib>(x, y, ref);
         return true;
+    }
+    if (op == "frefptr") {
+        op_frefptr(in.num(), impl);
+        return true; // no std::function_ref in libstdc++ 12
     }
     if (op == "frefops") {
         op_frefops(in.num(), impl);
@@ -310,6 +319,11 @@ bool c20::run_part3(std::string const& op, Toks& in, Out& impl, Out& ref)
         int k = i();
         op_telem<EtlLib>(k, impl);
         op_telem<StdLib>(k, ref);
+        return true;
+    }
+    if (op == "xfer") {
+        op_xfer<EtlLib>(impl);
+        op_xfer<StdLib>(ref);
         return true;
     }
     if (op == "pctor") {
